@@ -201,6 +201,11 @@ func (server *Server) deleteCodec(codec ServerCodec) {
 // It does not close the codec upon completion.
 func (server *Server) ServeRequest(ctx *Context, recving *sync.Mutex, wg *sync.WaitGroup, sched scheduler.Scheduler, readStream scheduler.Scheduler, streams map[uint64]*Context) error {
 	err := server.readRequestHeader(ctx)
+	if err == nil && !ctx.upgrade.Valid() {
+		// flag combinations no client of this protocol sends leave the context half
+		// initialised (no method, no argument or no reply value): reject the request
+		err = errors.New("invalid upgrade flags")
+	}
 	if err != nil {
 		server.putUpgrade(ctx.upgrade)
 		if server.bufferPool != nil && cap(ctx.buffer) > 0 {
